@@ -10,7 +10,12 @@ Transcribed sites
   single assignments;
 * token `raw_text` / `value` setters (base_token_models.py, block_comment.py) — parse / format first, then store;
 * `RawModel.detach` (base.py) — refuses a node that is not the whole of its store;
-* `unclaim_interleaving_comments` (interleaving_comments.py) — collect, check "not found", then clear flags.
+* `unclaim_interleaving_comments` (interleaving_comments.py) — collect, check "not found", then clear flags;
+* `Transaction.raw_payee` setter (transaction.py) — assign `raw_string1` (may raise), then create the empty narration;
+* `CostSpec.raw_number_per` / `raw_number_total` setters, the branches that change the brace kind (cost_spec.py) —
+  build the new component (may raise), flip `{}`/`{{}}`, store; and the bare-number branch: store (may raise), flip;
+* `claim_interleaving_comments(comments)` (interleaving_comments.py `_CommentClaimer.claim`) — the three searches
+  (pure), raise if a named comment was not met, only then shift placeholders, set flags, replace `items`.
 -/
 namespace Autobean.Refuse
 
@@ -37,6 +42,8 @@ theorem bind_err {σ α β : Type} {m : M σ α} {f : α → M σ β} {s s' : σ
 def raiseE {σ α : Type} (e : String) : M σ α := fun s => (.error e, s)
 def modifyS {σ : Type} (f : σ → σ) : M σ Unit := fun s => (.ok (), f s)
 def getS {σ : Type} : M σ σ := fun s => (.ok s, s)
+/-- `if c: <mutation>` (never raises). -/
+def whenS {σ : Type} (c : Prop) [Decidable c] (f : σ → σ) : M σ Unit := fun s => (.ok (), if c then f s else s)
 
 /-- A value offered to an editing call: its identity and whether it currently lives inside a document. -/
 structure Donor where
@@ -113,5 +120,129 @@ def unclaimInterleaving (wanted : List Nat) : M (List (Nat × Bool × Bool)) (Li
   let found := (items.filter fun it => it.2.1 && wanted.contains it.1).map (·.1)
   if wanted.any (fun w => !found.contains w) then raiseE "ValueError:notfound" items
   else (.ok found, items.filter fun it => !(it.2.1 && wanted.contains it.1))
+
+/-! ### `Transaction.raw_payee = value` (transaction.py) -/
+
+/-- `self.raw_string1 = value` through the optional-slot setter: an attached value is refused (`detach` /
+`_check_reusable`) before anything is touched; otherwise the slot is set (`set1`). -/
+def assignString1 {σ : Type} (set1 : Option Nat → σ → σ) : Option Donor → M σ Unit
+  | none => modifyS (set1 none)
+  | some d => do detach d; modifyS (set1 (some d.id))
+
+/-- `if value is not None and self.raw_narration is None: self.raw_narration = EscapedString.from_value('')`;
+`narrNone` reads `self.raw_narration is None`, `mkNarr` creates the empty narration. -/
+def fixNarration {σ : Type} (narrNone : σ → Bool) (mkNarr : σ → σ) (v : Option Donor) : M σ Unit := do
+  let s ← getS
+  if v.isSome && narrNone s then modifyS mkNarr else pure ()
+
+/-- The repaired setter: assign `raw_string1` first (may raise), then create the empty narration. -/
+def setPayee {σ : Type} (set1 : Option Nat → σ → σ) (narrNone : σ → Bool) (mkNarr : σ → σ) (v : Option Donor) :
+    M σ Unit := do
+  assignString1 set1 v
+  fixNarration narrNone mkNarr v
+
+/-- The order before the repair (4d67429): the empty narration first, then the assignment that may raise. -/
+def setPayeeOld {σ : Type} (set1 : Option Nat → σ → σ) (narrNone : σ → Bool) (mkNarr : σ → σ) (v : Option Donor) :
+    M σ Unit := do
+  fixNarration narrNone mkNarr v
+  assignString1 set1 v
+
+/-- A concrete transaction header for the witnesses: the two string slots (ids of the string nodes). -/
+structure TxnStrings where
+  string1 : Option Nat
+  string2 : Option Nat
+deriving DecidableEq, Repr
+
+/-! ### `CostSpec.raw_number_per` / `raw_number_total` = value, branches that change the brace kind (cost_spec.py) -/
+
+/-- `Amount.from_children(value, deepcopy(currency))` / `CompoundAmount.from_children(value, deepcopy(…), deepcopy(…))`:
+the constructor takes `value` over (raises on an attached one) and only reads the cost; the result is a
+free-standing component `mk value state`. -/
+def buildComp {σ κ : Type} (mk : Donor → σ → κ) (v : Donor) : M σ κ := do
+  detach v
+  let s ← getS
+  pure (mk v s)
+
+/-- The repaired branches `Amount(total) + Number(per)`, `Currency(total) + Number(per)` (and their mirror images
+in `raw_number_total`): build the new component (may raise) → `_into_unit_cost` / `_into_total_cost` (`flip`)
+→ store it and clear the old component (`store`). -/
+def setCostNumber {σ κ : Type} (mk : Donor → σ → κ) (flip : σ → σ) (store : κ → σ → σ) (v : Donor) : M σ Unit := do
+  let comp ← buildComp mk v
+  modifyS flip
+  modifyS (store comp)
+
+/-- The order before the repair (9a73b89): flip the braces, then build. -/
+def setCostNumberOld {σ κ : Type} (mk : Donor → σ → κ) (flip : σ → σ) (store : κ → σ → σ) (v : Donor) : M σ Unit := do
+  modifyS flip
+  let comp ← buildComp mk v
+  modifyS (store comp)
+
+/-- The bare branch `/(total) + Number(per) -> Number(per)`: `self.raw_number_comp = value` (refuses an attached
+value before touching anything) → flip. -/
+def setCostNumberBare {σ : Type} (flip : σ → σ) (store : Nat → σ → σ) (v : Donor) : M σ Unit := do
+  detach v
+  modifyS (store v.id)
+  modifyS flip
+
+def setCostNumberBareOld {σ : Type} (flip : σ → σ) (store : Nat → σ → σ) (v : Donor) : M σ Unit := do
+  modifyS flip
+  detach v
+  modifyS (store v.id)
+
+/-- A concrete cost for the witnesses: `{{…}}` or `{…}` and the component ids. -/
+structure CostBraces where
+  total : Bool
+  comps : List Nat
+deriving DecidableEq, Repr
+
+/-! ### `claim_interleaving_comments(comments)` (`_CommentClaimer.claim`) -/
+
+/-- What the three searches return: `comments_before`, `items_inner` (old items and the comments found between
+them, `(id, isComment)`), `comments_after`. -/
+structure Found where
+  before : List Nat
+  inner : List (Nat × Bool)
+  after : List Nat
+deriving Repr
+
+/-- Everything the searches met and `discard`ed from `_comments_to_claim`. -/
+def Found.met (f : Found) : List Nat := f.before ++ f.inner.map (·.1) ++ f.after
+
+/-- The comments of `items` in order (the return value). -/
+def Found.comments (f : Found) : List Nat := f.before ++ (f.inner.filter (·.2)).map (·.1) ++ f.after
+
+/-- `self._comments_to_claim` after the searches: `None` is `_Universe()` (always falsy), otherwise the named
+comments that were not met. -/
+def notFound (wanted : Option (List Nat)) (f : Found) : List Nat :=
+  match wanted with
+  | none => []
+  | some w => w.filter fun x => !f.met.contains x
+
+/-- `claim()`: `find` stands for `_find_outer` (backwards), `_find_inner`, `_find_outer` (forwards) — they only
+read the document (and `discard` from the claimer's private set); then the "not found" check; only then the
+two `_shift_ignored` calls, the `claimed` flags, `items[:] = …` and `_notify()` (`commit`). -/
+def claimInterleaving {σ : Type} (find : σ → Found) (wanted : Option (List Nat))
+    (shiftBefore shiftAfter : List Nat → σ → σ) (commit : Found → σ → σ) : M σ (List Nat) := do
+  let s ← getS
+  let f := find s
+  if notFound wanted f ≠ [] then raiseE "ValueError:notfound"
+  else do
+    whenS (f.before ≠ []) (shiftBefore f.before)
+    whenS (f.after ≠ []) (shiftAfter f.after)
+    modifyS (commit f)
+    pure f.comments
+
+/-- A hypothetical order (NOT a historical one — `claim` always checked first): shift, then check.  Used only to
+show that `refused_unchanged_claim` depends on the order. -/
+def claimInterleavingCheckLast {σ : Type} (find : σ → Found) (wanted : Option (List Nat))
+    (shiftBefore shiftAfter : List Nat → σ → σ) (commit : Found → σ → σ) : M σ (List Nat) := do
+  let s ← getS
+  let f := find s
+  whenS (f.before ≠ []) (shiftBefore f.before)
+  whenS (f.after ≠ []) (shiftAfter f.after)
+  if notFound wanted f ≠ [] then raiseE "ValueError:notfound"
+  else do
+    modifyS (commit f)
+    pure f.comments
 
 end Autobean.Refuse
